@@ -2,6 +2,7 @@
 from __future__ import annotations
 
 import ast
+import os
 import time
 from dataclasses import dataclass, field
 from typing import Any, Dict, List, Optional
@@ -40,6 +41,7 @@ class Engine(ExprMixin, CallMixin, StmtMixin):
         self.world = world
         self.safety = safety
         self.feas_timeout_ms = feas_timeout_ms
+        self.feas_rlimit = int(os.environ.get("VERIF_FEAS_RLIMIT", "60000"))
         self.spec_mode = False
         self.under_binder = 0
         self.binders: List[Any] = []
@@ -78,14 +80,39 @@ class Engine(ExprMixin, CallMixin, StmtMixin):
 
     # ---------------------------------------------------------------- feasibility
     def feasible(self, st: St) -> bool:
+        """Path pruning only: a path is dropped when its condition is refuted.  The refutation uses the cone of
+        influence of the most recently added conjuncts (dropping hypotheses is sound for `unsat`; an
+        inconsistency that does not involve the new conjuncts was already there at the previous check)."""
+        from .smt import symbols_cached
+        pcs = [p.expr if isinstance(p, Tagged) else p for p in st.pc]
+        items = [(p, symbols_cached(p)) for p in pcs] + [(a, symbols_cached(a)) for a in self.axioms()]
+        hub = {"root", "null_Node", "self"}
+        want = set()
+        for p in pcs[-4:]:
+            want |= symbols_cached(p)
+        want -= hub
+        keep = [False] * len(items)
+        for k in range(max(0, len(pcs) - 4), len(pcs)):
+            keep[k] = True
+        changed = True
+        while changed:
+            changed = False
+            for k, (p, sy) in enumerate(items):
+                if not keep[k] and (sy - hub) & want:
+                    keep[k] = True
+                    new = (sy - hub) - want
+                    if new:
+                        want |= new
+                        changed = True
         s = z3.Solver()
-        s.set("timeout", self.feas_timeout_ms)
+        # a deterministic resource bound (not wall time): which paths are pruned must not depend on machine load
+        s.set("rlimit", self.feas_rlimit)
+        s.set("timeout", 2000)
         s.set("smt.mbqi", False)
         s.set("smt.auto_config", False)
-        for a in self.axioms():
-            s.add(a)
-        for p in st.pc:
-            s.add(p.expr if isinstance(p, Tagged) else p)
+        for k, (p, _) in enumerate(items):
+            if keep[k]:
+                s.add(p)
         return s.check() != z3.unsat
 
     # ---------------------------------------------------------------- obligations
@@ -145,7 +172,10 @@ class Engine(ExprMixin, CallMixin, StmtMixin):
             out.append(e)
 
     def _known_syntactically(self, st, goal) -> bool:
-        memo = {}
+        # memo: ast id -> (ast, text); entries keep their ast alive, so an id cannot be re-used while it is a key
+        memo = self.__dict__.setdefault("_norm_memo", {})
+        if len(memo) > 400000:
+            memo.clear()
         g = self._norm(goal, memo)
         for p in st.pc:
             p = p.expr if isinstance(p, Tagged) else p
@@ -377,7 +407,7 @@ class Engine(ExprMixin, CallMixin, StmtMixin):
                 env["final_" + name] = o.st.env[name]
         post_st = St(env, o.st.heap, o.st.pc, pre, o.st.ghost)
         pre_eval = St(dict(entry_env), pre.heap, [], None, pre.ghost)
-        whens = [self.spec_bool(r.when, pre_eval) if r.when else z3.BoolVal(True) for r in matches]
+        whens = [self.spec_bool(r.when[6:] if r.when.startswith('ghost:') else r.when, pre_eval) if r.when else z3.BoolVal(True) for r in matches]
         self.oblige(o.st, "post-exc", f"{exc.cls}:allowed", z3.Or(*whens), fn)
         for r, wv in zip(matches, whens):
             for k, e in enumerate(r.ensures):
